@@ -116,9 +116,10 @@ func (cce *staleIfErrorPolicy) CanStaleOnError(
 		if !valid {
 			continue
 		}
-		age := freshness.Age.Value + cce.clock.Since(freshness.Age.Timestamp)
-		// If stale-if-error is set, allow extra staleness
-		if age <= freshness.UsefulLife+dur {
+		age := addDuration(freshness.Age.Value, max(cce.clock.Since(freshness.Age.Timestamp), 0))
+		// If stale-if-error is set, allow extra staleness (written as a
+		// subtraction so that a huge window cannot overflow)
+		if age-freshness.UsefulLife <= dur {
 			return true
 		}
 	}
